@@ -14,7 +14,7 @@ SPECS = os.path.join(ROOT, "specs")
 HARNESS = os.path.join(ROOT, "harness")
 WORK = os.path.join(ROOT, ".work")
 REPLAYS = os.path.join(ROOT, "replays")
-EVIDENCE = os.path.join(ROOT, "evidence")
+EVIDENCE = os.environ.get("VERIF_EVIDENCE_DIR") or os.path.join(ROOT, "evidence")
 NCPU = os.cpu_count() or 4
 
 
@@ -42,11 +42,27 @@ def sh(cmd, cwd=None, env=None, timeout=None, check=False):
 _built = {}
 
 
+def harness_dir():
+    """The harness module. For a repository other than /repo (VERIF_REPO: a scratch worktree carrying a seeded change)
+    a private copy of the module whose replace directive points there, so that /repo and /verif/harness stay untouched."""
+    if os.path.abspath(REPO) == "/repo":
+        return HARNESS
+    import hashlib
+    d = os.path.join(WORK, "harness-" + hashlib.sha1(os.path.abspath(REPO).encode()).hexdigest()[:12])
+    if not os.path.isdir(d):
+        os.makedirs(WORK, exist_ok=True)
+        shutil.copytree(HARNESS, d, ignore=lambda src, names: [n for n in names if src == HARNESS and n in ("vh", "vh-race")])
+        gm = open(os.path.join(d, "go.mod")).read().replace("=> /repo", "=> " + os.path.abspath(REPO))
+        open(os.path.join(d, "go.mod"), "w").write(gm)
+    return d
+
+
 def build_harness(race=False):
     """(Re)build the harness against /repo's current working tree, hooks on."""
     key = "race" if race else "plain"
     if key in _built:
         return _built[key]
+    HARNESS = harness_dir()
     out = os.path.join(HARNESS, "vh-race" if race else "vh")
     shutil.copyfile(os.path.join(REPO, "go.sum"), os.path.join(HARNESS, "go.sum"))
     cmd = ["go", "build", "-tags", "verif"]
